@@ -71,7 +71,7 @@ var c11Model *refdict.Model
 
 func c11Supported(typ string, id uint32) bool {
 	if c11Model == nil {
-		emb, err := refdict.LoadEmbedded("/repo")
+		emb, err := refdict.LoadEmbedded(repoRoot())
 		if err != nil {
 			panic(err)
 		}
